@@ -27,3 +27,4 @@ def run(repo, res, tier):
     # the by-character fall-back for files with an undecodable tail reads bytes, also for an already-open text stream
     from .. import apirules as _ap5
     _ap5.rule_f5(repo, res)
+    _hkz.rule_writer_fwd(repo, res)
